@@ -398,6 +398,7 @@ def oracle(line, out, want=("C04", "C05", "C06", "C07")):
         return None
     padded = not (flags & F_NOALIGN)
     cur_cap, cur_len, appended, outstanding, last_built = None, 0, [], {}, None
+    reserved_appended = False
     validated = {}
     for op, g in zip(ops, groups):
         name = op[0]
@@ -412,11 +413,14 @@ def oracle(line, out, want=("C04", "C05", "C06", "C07")):
                 if got != exp:
                     return "vectored pre-check says %d for split %s but %d for the contiguous bytes" % (got, [len(p) for p in parts], exp)
         elif name in ("IR", "II", "IS", "IE"):
+            reserved_appended = False
             cur_cap = int(op[2] if name in ("IR", "II") else op[1]); appended = []; cur_len = None   # init may add SOFTWARE / ERROR-CODE
             if g[0] == "i=1" and cur_cap < 20 and "C07" in want:
                 return "message initialised in a %d-byte buffer" % cur_cap
         elif name[0] == "A" and g[0] != "a=x":
             r, ln = g[0][2:].split(":")
+            if name in ("AB", "A32", "A64", "AF") and int(op[1], 16) in (A_MI, A_FPR):
+                reserved_appended = True
             if "C07" in want and cur_cap is not None:
                 if int(ln) > cur_cap:
                     return "after append the message length %s exceeds the %d-byte buffer" % (ln, cur_cap)
@@ -490,12 +494,12 @@ def oracle(line, out, want=("C04", "C05", "C06", "C07")):
                     u = spec_find(p[3], A_USERNAME, compat)
                     if not mi or not u:
                         return "request validated under credentials without USERNAME and MESSAGE-INTEGRITY"
-                    if mi[1] != 20:
-                        return "request validated with a %d-byte MESSAGE-INTEGRITY" % mi[1]
                     uname = b[u[0]:u[0] + u[1]]
                     if uname not in table:
                         return "request validated although no key is bound to its USERNAME"
                     key = table[uname]
+                    if len(key) > 0 and mi[1] != 20:      # an empty password disables the integrity check (stunagent.c: key_len > 0), as in the Coq statement
+                        return "request validated with a %d-byte MESSAGE-INTEGRITY" % mi[1]
                     if len(key) > 0:
                         if flags & F_LONG:
                             r_ = spec_find(p[3], A_REALM, compat)
@@ -505,7 +509,8 @@ def oracle(line, out, want=("C04", "C05", "C06", "C07")):
                         exp = expected_mi(b, p[3], mi[0], compat, key)
                         if b[mi[0]:mi[0] + 20] != exp:
                             return "request validated although MESSAGE-INTEGRITY is not HMAC-SHA1 of the RFC prefix under the key of its USERNAME"
-            if op[3] == "@" and last_built and "C07" in want and last_built[1] not in ("n",) and st in (1, 2, 3):
+            # (a program that appends MESSAGE-INTEGRITY / FINGERPRINT itself misuses the builder: finish adds its own, validation reads the first)
+            if op[3] == "@" and last_built and "C07" in want and last_built[1] not in ("n",) and st in (1, 2, 3) and not reserved_appended:
                 return "a message the library finished itself does not pass its own validation (status %d)" % st
     return None
 
